@@ -195,6 +195,20 @@ chk("C18",
     "machine-checked proof in Coq (boolean validator = documented predicate) + check extraction/constructor correspondence + covering-array runs",
     "DESIGN.md section 6, C18")
 
+chk("C15",
+    "Coq theorems over exact rationals: component weights form a simplex; every covariance is symmetric with a "
+    "non-negative quadratic form in every direction; each mean coordinate lies in the data range scaled by "
+    "c=S/(S+1e-10) (the unscaled box is refuted by a computed witness = the known finding); weighted sums with integer "
+    "weights equal sums over the replicated data; for every split oracle whose proposals partition their parent the "
+    "split loop keeps a partition of the training points, adds at most one cluster per round (K <= cap with the core's "
+    "cap-1 iterations), never accepts a child below min_points; argmax over K columns is < K. Tie: Gen.Mixture (M-step "
+    "formulas, split-loop structure, cap wiring, predict) + Link; GaussianMixture/HierarchicalGaussianMixture on "
+    "generated weighted data (invariants, 3-step EM replication test, one M-step replayed through the Coq model).",
+    "Trusted: Coq kernel/vm_compute; python extractor/harness; responsibilities and BIC decisions are oracles; float "
+    "rounding idealised; 'tied'/'spherical' excluded by the statement.",
+    "machine-checked proof in Coq (Q arithmetic; permutation invariants of the split loop) + formula/structure extraction/exact-rational M-step correspondence",
+    "DESIGN.md section 6, C15")
+
 for pid in [f"C{i:02d}" for i in range(1, 21)]:
     if pid not in CHECKS:
         NA[pid] = "check not built yet in this session (planned in DESIGN.md section 6); not claimed"
